@@ -765,6 +765,8 @@ func calleeResultType(fn *ssa.Function, name string, ri int) types.Type {
 				n = c.Method.Name()
 			} else if f := c.StaticCallee(); f != nil {
 				n = f.Name()
+			} else if _, isB := c.Value.(*ssa.Builtin); !isB && functypeNames[name] {
+				n = name // a call through a function value, for a name that is a functype contract
 			}
 			if n != name {
 				continue
@@ -777,3 +779,6 @@ func calleeResultType(fn *ssa.Function, name string, ri int) types.Type {
 	}
 	return nil
 }
+
+// functypeNames: last parts of the keys of functype contracts (filled when the specs are loaded)
+var functypeNames = map[string]bool{}
